@@ -316,3 +316,51 @@ func harnessC05ReplaySubscriberPanics() {
 	}
 	vCover("replay-subscriber-panicked")
 }
+
+//verif:entry property=C05 tier=both bounds="circuit breaker: a panicking handler (Once or not, sync or async) whose panic handler takes it - or its whole type, or everything - off the bus (Unsubscribe / Clear / ClearAll) while the publish is still running; an ordinary handler behind it; the panic stays contained, the handler behind still gets the event, the bus stays usable (second publish, new subscription)" cover="circuit-breaker"
+func harnessC05PanicHandlerRemoves() {
+	var bus *EventBus
+	var faulty Handler[evA]
+	action := vPick(3)
+	reports := 0
+	bus = New(WithPanicHandler(func(ev any, ht reflect.Type, v any) {
+		reports++
+		switch action {
+		case 0:
+			_ = Unsubscribe[evA](bus, faulty)
+		case 1:
+			Clear[evA](bus)
+		case 2:
+			ClearAll(bus)
+		}
+	}))
+	faulty = func(e evA) { panic("faulty handler") }
+	var so []SubscribeOption
+	once, async := vBool(), vBool()
+	if once {
+		so = append(so, Once())
+	}
+	if async {
+		so = append(so, Async())
+	}
+	behind := 0
+	vAssert(Subscribe(bus, faulty, so...) == nil, "subscribe-ok")
+	vAssert(Subscribe(bus, func(e evA) { behind++ }) == nil, "subscribe-ok")
+	Publish(bus, evA{N: 1})
+	bus.Wait()
+	vAssert(behind == 1, "every-handler-still-runs-exactly-once")
+	vAssert(reports == 1, "panic-handler-once-per-panic")
+	// the bus is fully usable afterwards
+	later := 0
+	vAssert(Subscribe(bus, func(e evA) { later++ }) == nil, "subscribe-ok")
+	Publish(bus, evA{N: 2})
+	bus.Wait()
+	vAssert(later == 1, "bus-usable-after-panic")
+	if action == 0 {
+		vAssert(behind == 2 && HandlerCount[evA](bus) == 2, "bus-usable-after-panic")
+	} else {
+		vAssert(behind == 1 && HandlerCount[evA](bus) == 1, "bus-usable-after-panic")
+	}
+	vAssert(reports == 1, "panic-handler-once-per-panic")
+	vCover("circuit-breaker")
+}
